@@ -127,6 +127,34 @@ pub fn k5() -> (Vec<u8>, Vec<u8>) {
     (serialize(&init_nodes(&m)).0, serialize(&seg).0)
 }
 
+/// K6: one fragment whose trafs carry every single-column shape of `trun` (none, durations only, sizes only,
+/// flags only, composition offsets only, all) and a `tfhd` with every optional field: one input per
+/// flag-gated shortcut of the fragment readers.
+pub fn k6() -> Vec<u8> {
+    let m = LFragMovie { movie_ts: 1000, tracks: vec![LFragTrack { id: 1, codec: Codec::Avc, timescale: 12800, trex_default_duration: 512 }], fragments: vec![], mehd: None, large_moof: false };
+    let mut all = init_nodes(&m);
+    let mut trafs = vec![mfhd(1)];
+    let shapes: [(bool, bool, bool, bool); 6] = [(false, false, false, false), (true, false, false, false), (false, true, false, false), (false, false, true, false), (false, false, false, true), (true, true, true, true)];
+    for (i, (d, s, f, c)) in shapes.iter().enumerate() {
+        let n = 2usize;
+        let th = Tfhd { version: 0, extra_flags: 0x020000, track_id: 1, base_data_offset: if i == 5 { Some(900) } else { None }, sample_description_index: Some(1), default_sample_duration: Some(512), default_sample_size: Some(3), default_sample_flags: Some(0x0101_0000) };
+        let tr = Trun {
+            version: (i % 2) as u8,
+            sample_count: n as u32,
+            data_offset: Some(400 + 8 * i as i32),
+            first_sample_flags: if *f { None } else { Some(0x0200_0000) },
+            durations: if *d { Some(vec![500, 524]) } else { None },
+            sizes: if *s { Some(vec![3, 3]) } else { None },
+            flags_: if *f { Some(vec![0x0200_0000, 0x0101_0000]) } else { None },
+            cts: if *c { Some(vec![0, 256]) } else { None },
+        };
+        trafs.push(Node::kids(b"traf", vec![tfhd(&th), tfdt((i % 2) as u8, 1024 * i as u64), trun(&tr)]));
+    }
+    all.push(Node::kids(b"moof", trafs));
+    all.push(Node::leaf(b"mdat", (0..96u8).map(|i| i.wrapping_mul(7).wrapping_add(1)).collect()));
+    serialize(&all).0
+}
+
 pub fn baselines(tier: Tier) -> Vec<Baseline> {
     let th = tier == Tier::Thorough;
     let (i5, s5) = k5();
@@ -136,6 +164,7 @@ pub fn baselines(tier: Tier) -> Vec<Baseline> {
         Baseline { name: "K3:vp9+mp4a(wave),quicktime-meta,mdat-first".into(), bytes: k3(), init: None, pairs: th },
         Baseline { name: "K4:fragmented,emsg,2moof-x-2traf".into(), bytes: k4(), init: None, pairs: th },
         Baseline { name: "K5:media-segment-against-init".into(), bytes: s5, init: Some(i5), pairs: th },
+        Baseline { name: "K6:every-trun-column-shape,full-tfhd".into(), bytes: k6(), init: None, pairs: th },
     ]
 }
 
